@@ -372,7 +372,7 @@ func c04World(t *testing.T, p c04Params) rt.Result {
 
 func TestC04(t *testing.T) {
 	c := rt.Get()
-	n := c.N(1600, 40000)
+	n := c.N(1600, 80000)
 	tds := []string{"close", "reset", "cease", "silent"}
 	for i := 0; i < n; i++ {
 		if !c.Mine("writers", i) {
